@@ -3,6 +3,7 @@ import Xp.Proofs.C17Dag
 import Xp.Proofs.C17Init
 import Xp.Proofs.C17Ver
 import Xp.Proofs.C17Res
+import Xp.Proofs.C17Env
 import Xp.Gen.C17Tables
 /-
 C17 property theorems: dependency resolution.
@@ -428,6 +429,204 @@ theorem satisfied_sound_fails_on_unfixed_witness :
 /-- ... and the repaired code reports the dependency missing on that input -/
 example : (resolve wOracle false wLock wSelf).err = .missingDirect := by decide
 
+/-! ### Resolve next to other writers of the Lock
+
+`resolveI retry o upg lock self env` (Model) is Resolve with an environment `env : Interf` that may
+replace the stored Lock right before each of Resolve's API calls after its first Get (before
+RemoveSelf's Get, before RemoveSelf's Update, before the refreshing Get, before the Update that
+adds the revision). A write right before an Update makes that Update fail with a conflict (the
+resourceVersion moved); `retry = false` is the code as it is (the conflict error is returned),
+`.lock` is the Lock as stored when Resolve returns. -/
+
+/-- Without other writers `resolveI` is `resolve`: the theorems above are the interference-free
+special case (for both values of `retry`: no conflict, nothing to retry). -/
+theorem resolve_is_interference_free_case (retry : Bool) (o : Oracle) (upg : Bool) (lock : List Pkg) (self : Pkg) :
+    resolveI retry o upg lock self Interf.quiet = resolve o upg lock self :=
+  resolveI_quiet retry o upg lock self
+
+/-- **Satisfied is sound next to concurrent writers.** For every lock, revision, DAG
+implementation, oracle and EVERY interference `env` (arbitrary lock contents stored by other
+writers at each of the four points; only the two writes Resolve reads back must leave the
+revision's own entries alone, `EnvWF`): if Resolve returns no error then, in the Lock AS STORED
+WHEN RESOLVE RETURNS,
+* the revision is recorded with its declared dependencies,
+* every direct dependency is a lock package at the pinned digest / an admitted version,
+* every package reachable from the revision is a lock package. -/
+theorem satisfied_sound_under_interference (o : Oracle) (upg : Bool) (lock : List Pkg) (self : Pkg) (env : Interf)
+    (wf : LockWF lock self) (ewf : EnvWF env self)
+    (h : (resolveI false o upg lock self env).err = .none) :
+    lockNb (resolveI false o upg lock self env).lock self.source = some (self.deps.map (·.pkg)) ∧
+    (∀ e ∈ self.deps, ∃ p ∈ (resolveI false o upg lock self env).lock, p.source = e.pkg ∧ VersionOk o e p.version) ∧
+    (∀ m, Reach (lockNb (resolveI false o upg lock self env).lock) self.source m →
+      m ∈ (resolveI false o upg lock self env).lock.map (·.source)) :=
+  resolveI_sound o upg lock self env wf ewf h
+
+/-- ... and the reason: a run that ends without error has no window between its last read and
+its write. The stored Lock is exactly what Resolve's last Get returned (`lastRead`) when the
+revision was already recorded, and otherwise that plus the revision's entry, in which case
+nobody wrote between that Get and the Update (`env.upd = none`). For every `env`, no
+assumption on it. -/
+theorem satisfied_has_no_stale_window (o : Oracle) (upg : Bool) (lock : List Pkg) (self : Pkg) (env : Interf)
+    (h : (resolveI false o upg lock self env).err = .none) :
+    ((lastRead lock self env).any (fun lp => lp.name == self.name) = true ∧
+      (resolveI false o upg lock self env).lock = lastRead lock self env) ∨
+    ((lastRead lock self env).any (fun lp => lp.name == self.name) = false ∧ env.upd = none ∧
+      (resolveI false o upg lock self env).lock = lastRead lock self env ++ [self]) :=
+  resolveI_ok_lock h
+
+/-- The conflict is the consequence of the interference: Resolve returns the conflict error iff
+another writer stored something right before an Update that Resolve sends on its path (the
+Update of RemoveSelf when an entry with the revision's name is there; the Update adding the
+revision when the lock as last read does not have it and the DAG could be built). -/
+theorem conflict_iff_interference_before_a_write (o : Oracle) (upg : Bool) (lock : List Pkg) (self : Pkg) (env : Interf)
+    (hinit : ∀ e, init o upg lock ≠ .error e) :
+    (resolveI false o upg lock self env).err = .conflict ↔
+      (lock.any (movedEntry self) = true ∧ (env.rmGet.getD lock).any (fun lp => lp.name == self.name) = true ∧
+        env.rmUpd.isSome = true) ∨
+      ((∀ e, init o upg (lastRead lock self env) ≠ .error e) ∧
+        (lastRead lock self env).any (fun lp => lp.name == self.name) = false ∧ env.upd.isSome = true ∧
+        (lock.any (movedEntry self) = true → (env.rmGet.getD lock).any (fun lp => lp.name == self.name) = true → env.rmUpd = none)) :=
+  resolveI_conflict_iff o upg lock self env hinit
+
+/-- On a conflict nothing is claimed and nothing is overwritten: the stored Lock is what the
+other writer left, `installed` and `invalid` are 0. -/
+theorem conflict_claims_nothing (o : Oracle) (upg : Bool) (lock : List Pkg) (self : Pkg) (env : Interf)
+    (h : (resolveI false o upg lock self env).err = .conflict) :
+    (env.rmUpd = some (resolveI false o upg lock self env).lock ∨ env.upd = some (resolveI false o upg lock self env).lock) ∧
+    (resolveI false o upg lock self env).installed = 0 ∧ (resolveI false o upg lock self env).invalid = 0 :=
+  resolveI_conflict_out h
+
+/-! #### the trigger: all dependencies present at the read, one removed before the Update -/
+
+/-- b is in the lock when the new revision a (depending on b) reads it; b's revision removes
+itself before a's Update -/
+def iLock : List Pkg := [⟨"pb", "b", "2.0.1", [], false⟩]
+def iSelf : Pkg := ⟨"pa", "a", "2.0.1", [⟨"b", "*"⟩], false⟩
+def iEnv : Interf := { upd := some [] }
+
+/-- the code as it is returns the conflict error on the trigger ... -/
+example : (resolveI false wOracle false iLock iSelf iEnv).err = .conflict := by decide
+example : LockWF iLock iSelf ∧ EnvWF iEnv iSelf :=
+  ⟨⟨by decide, by decide, by decide⟩, ⟨fun w h => (by cases h), fun w h => (by cases h)⟩⟩
+
+/-- ... whereas the variant that retries the Update on a conflict (`retry = true`: re-read,
+re-append, update again, keep the DAG built from the first read) reports the dependencies
+satisfied with the direct dependency b absent from the stored Lock: `satisfied_sound_under_interference`
+rests on the conflict ending the call. -/
+theorem satisfied_sound_fails_with_conflict_retry_witness :
+    LockWF iLock iSelf ∧ EnvWF iEnv iSelf ∧ (resolveI true wOracle false iLock iSelf iEnv).err = .none ∧
+    (resolveI true wOracle false iLock iSelf iEnv).installed = (resolveI true wOracle false iLock iSelf iEnv).found ∧
+    ¬ (∀ e ∈ iSelf.deps, ∃ p ∈ (resolveI true wOracle false iLock iSelf iEnv).lock, p.source = e.pkg) := by
+  refine ⟨⟨by decide, by decide, by decide⟩, ⟨fun w h => (by cases h), fun w h => (by cases h)⟩, by decide, by decide, by decide⟩
+
+/-! #### laws of the interference-free Resolve that do not survive other writers -/
+
+/-- (1) Unless the DAG cannot be built, the revision is recorded in the lock after Resolve. -/
+theorem recorded_without_interference (o : Oracle) (upg : Bool) (lock : List Pkg) (self : Pkg)
+    (h : (resolve o upg lock self).err ≠ .initDag) : ∃ p ∈ (resolve o upg lock self).lock, p.name = self.name := by
+  unfold resolve at h ⊢
+  obtain ⟨lock1, _, hshape⟩ := resolveG_lock o upg lock self
+  rcases hshape with ⟨he, _⟩ | hl
+  · exact absurd he h
+  · rw [hl]
+    cases hpe : lock1.any (fun lp => lp.name == self.name) with
+    | true =>
+      obtain ⟨q, hq, hqn⟩ := List.any_eq_true.1 hpe
+      exact ⟨q, by simpa using hq, by simpa using hqn⟩
+    | false => exact ⟨self, by simp, rfl⟩
+
+/-- ... next to another writer it is not (conflict on the trigger above) -/
+theorem recorded_fails_under_interference_witness :
+    (resolveI false wOracle false iLock iSelf iEnv).err ≠ .initDag ∧
+    ¬ ∃ p ∈ (resolveI false wOracle false iLock iSelf iEnv).lock, p.name = iSelf.name := by
+  refine ⟨by decide, by decide⟩
+
+/-- (2) Resolve removes nothing but the revision's own stale entry: every other revision's
+entry of the lock it read is in the lock it leaves. (This is the law a cached graph relies on.) -/
+theorem frame_without_interference (o : Oracle) (upg : Bool) (lock : List Pkg) (self : Pkg) :
+    ∀ p ∈ lock, p.name ≠ self.name → p ∈ (resolve o upg lock self).lock := by
+  intro p hp hn
+  unfold resolve
+  obtain ⟨lock1, hl1, hshape⟩ := resolveG_lock o upg lock self
+  have h1 : p ∈ lock1 := by
+    rw [hl1]
+    split
+    · exact mem_removeSelf_of_ne hn lock hp
+    · exact hp
+  rcases hshape with ⟨_, hl | hl⟩ | hl
+  · rw [hl]; exact hp
+  · rw [hl]; exact h1
+  · rw [hl]
+    split
+    · exact h1
+    · exact List.mem_append_left _ h1
+
+/-- ... next to another writer an entry read by Resolve can be gone when Resolve returns, even
+when Resolve returns no error (here: the writer empties the lock between RemoveSelf and the
+refreshing Get) -/
+def fLock : List Pkg := [⟨"pa", "old/a", "2.0.1", [], false⟩, ⟨"pc", "c", "2.0.1", [], false⟩]
+def fSelf : Pkg := ⟨"pa", "a", "2.0.1", [], false⟩
+def fEnv : Interf := { refresh := some [] }
+
+theorem frame_fails_under_interference_witness :
+    LockWF fLock fSelf ∧ EnvWF fEnv fSelf ∧ (resolveI false wOracle false fLock fSelf fEnv).err = .none ∧
+    ¬ (∀ p ∈ fLock, p.name ≠ fSelf.name → p ∈ (resolveI false wOracle false fLock fSelf fEnv).lock) := by
+  refine ⟨⟨by decide, by decide, by decide⟩, ⟨fun w h => (by cases h), ?_⟩, by decide, by decide⟩
+  intro w h
+  cases h
+  exact ⟨fun p hp => (by cases hp), fun p hp => (by cases hp)⟩
+
+/-- (3) "Satisfied" speaks about the lock Resolve was called on: every direct dependency is a
+package of that lock (or the revision itself). -/
+theorem satisfied_refers_to_lock_read_first (o : Oracle) (upg : Bool) (lock : List Pkg) (self : Pkg) (wf : LockWF lock self)
+    (h : (resolve o upg lock self).err = .none) : ∀ e ∈ self.deps, e.pkg ∈ (lock ++ [self]).map (·.source) := by
+  intro e he
+  obtain ⟨p, hp, hs, _⟩ := (satisfied_sound o upg lock self wf h).2.1 e he
+  unfold resolve at hp h
+  obtain ⟨lock1, hl1, hshape⟩ := resolveG_lock o upg lock self
+  have hsub : ∀ q ∈ lock1, q ∈ lock := by
+    intro q hq
+    rw [hl1] at hq
+    split at hq
+    · exact removeSelf_sub _ _ _ hq
+    · exact hq
+  refine List.mem_map.2 ⟨p, ?_, hs⟩
+  rcases hshape with ⟨hi, _⟩ | hl
+  · rw [h] at hi; cases hi
+  · rw [hl] at hp
+    split at hp
+    · exact List.mem_append_left _ (hsub p hp)
+    · rcases List.mem_append.1 hp with h' | h'
+      · exact List.mem_append_left _ (hsub p h')
+      · exact List.mem_append_right _ h'
+
+/-- ... next to another writer it speaks about the lock as last read: here b is added between
+RemoveSelf and the refreshing Get, and Resolve (rightly) reports satisfied although the lock it
+was called on does not hold b -/
+def rLock : List Pkg := [⟨"pa", "old/a", "2.0.1", [], false⟩]
+def rEnv : Interf := { refresh := some [⟨"pb", "b", "2.0.1", [], false⟩] }
+
+theorem satisfied_refers_to_lock_read_first_fails_under_interference_witness :
+    LockWF rLock iSelf ∧ EnvWF rEnv iSelf ∧ (resolveI false wOracle false rLock iSelf rEnv).err = .none ∧
+    ¬ (∀ e ∈ iSelf.deps, e.pkg ∈ (rLock ++ [iSelf]).map (·.source)) := by
+  refine ⟨⟨by decide, by decide, by decide⟩, ⟨fun w h => (by cases h), ?_⟩, by decide, by decide⟩
+  intro w h
+  cases h
+  exact ⟨by decide, by decide⟩
+
+/-- The assumption of `satisfied_sound_under_interference` on the write read back by the
+refreshing Get cannot be dropped: a writer that puts the revision's stale entry back right
+after RemoveSelf removed it makes Resolve find "itself" in the lock, skip the Update, trace
+from a source that is only an implied node, and report satisfied while the revision is not
+recorded under its source (and c, needed by b, is absent). -/
+def nLock : List Pkg :=
+  [⟨"pa", "old/a", "2.0.1", [], false⟩, ⟨"px", "x", "2.0.1", [⟨"a", "*"⟩], false⟩, ⟨"pb", "b", "2.0.1", [⟨"c", "*"⟩], false⟩]
+
+theorem stale_entry_put_back_witness :
+    LockWF nLock iSelf ∧ (resolveI false wOracle false nLock iSelf { refresh := some nLock }).err = .none ∧
+    lockNb (resolveI false wOracle false nLock iSelf { refresh := some nLock }).lock iSelf.source ≠ some (iSelf.deps.map (·.pkg)) := by
+  refine ⟨⟨by decide, by decide, by decide⟩, by decide, by decide⟩
+
 /-! ### non-vacuity -/
 
 def o0 : Oracle := ⟨fun _ => none, fun _ => false, fun _ _ => false, fun _ => none⟩
@@ -481,6 +680,10 @@ example : (resolve wOracle true
     ⟨"pa", "a", "2.0.1", [⟨"b", "*"⟩], false⟩).err = .none := by decide
 example : LockWF [⟨"pc", "c", "2.0.1", [], false⟩, ⟨"pb", "b", "2.0.1", [⟨"c", "*"⟩], false⟩]
     ⟨"pa", "a", "2.0.1", [⟨"b", "*"⟩], false⟩ := ⟨by decide, by decide, by decide⟩
+/-- satisfied next to writers that do not touch the closure: a status write before RemoveSelf's
+Get, an unrelated package added before the refreshing Get -/
+example : (resolveI false wOracle true rLock iSelf
+    { rmGet := some rLock, refresh := some [⟨"pb", "b", "2.0.1", [], false⟩, ⟨"pz", "z", "2.0.1", [], false⟩] }).err = .none := by decide
 example : (reconcile o0 false false cyc ["x", "c", "b", "a"] (fun _ => none) (fun _ => some [])).act = .nothing := by decide
 
 end Xp.C17
